@@ -11,6 +11,73 @@ def _key(v):
     return (v[0], int(m.group(1)), 5 if seq.startswith("FRONTEND") else (0 if seq == "<none>" else seq.count(",") + 1), len(m.group(3)), odd)
 
 
+# ---- the call order of the real Main() / Start() / Stop() that the harness script "FRONTEND" reproduces -------------------
+# (run_in_frontend.cpp / run_in_backend.cpp are not linked into the harness: they need the whole event/terminal/log stack and
+# real time. Instead the lines that touch `apps`, the surrounding control flow and the life time of the backend Runtime are
+# extracted and must be exactly the ones the script was written from; any difference = the script is stale = a finding.)
+_PAT = re.compile(r"apps\.|ctx\.(initialize|start|stop|cleanup)\(|\belse\b|\breturn\b|End\(\)|thread|RunIn(Front|Back)end\(|runLoop|exitLoop|CHECK_DELETE_RESET_OBJ\(_runtime\)|new Runtime")
+_PRE = re.compile(r"apps\.|new Runtime")
+_FRONT = ("run_in_frontend.cpp", [r"^void RunInFrontend\(", r"^int Main\("], [
+    '## ^void RunInFrontend\\(', 'apps.stop();', 'ctx.stop();', 'ctx.loop()->exitLoop(std::chrono::seconds(exit_wait_sec));', 'ctx.loop()->runLoop();',
+    '## ^int Main\\(', 'apps.fillDefaultConfig(js_conf);', 'if (ctx.initialize(argv[0], js_conf, &apps)) {', 'if (apps.initialize(js_conf)) {',
+    'if (ctx.start() && apps.start()) {', 'RunInFrontend(ctx, apps, exit_wait_sec);', '} else {', 'apps.cleanup();', '} else {', 'ctx.cleanup();', '} else {', 'return 0;'])
+_BACK = ("run_in_backend.cpp", [r"^void RunInBackend\(", r"^void End\(", r"^bool Start\(", r"^void Stop\("], [
+    '## ^void RunInBackend\\(', 'loop->runLoop();', '## ^void End\\(', 'CHECK_DELETE_RESET_OBJ(_runtime);',
+    '## ^bool Start\\(', '_runtime = new Runtime;', 'apps.fillDefaultConfig(js_conf);', 'if (ctx.initialize(argv[0], js_conf, &apps)) {', 'if (apps.initialize(js_conf)) {',
+    'if (ctx.start()) {', 'if (apps.start()) {', '_runtime->thread = std::thread(RunInBackend);', 'return true;', '} else {', 'ctx.stop();', '} else {', 'apps.cleanup();',
+    '} else {', 'ctx.cleanup();', '} else {', 'End();', 'return false;',
+    '## ^void Stop\\(', 'return;', '_runtime->apps.stop();', '_runtime->ctx.stop();', '_runtime->ctx.loop()->exitLoop(std::chrono::seconds(_runtime->exit_wait_sec));',
+    '_runtime->thread.join();', '_runtime->apps.cleanup();', '_runtime->ctx.cleanup();', 'End();'])
+
+
+def _func_body(text, head):
+    m = re.search(head, text, re.M)
+    if not m:
+        return None
+    i = text.index("{", m.end()); d = 0; j = i
+    while j < len(text):
+        if text[j] == "{":
+            d += 1
+        elif text[j] == "}":
+            d -= 1
+            if d == 0:
+                break
+        j += 1
+    return text[i:j + 1]
+
+
+def _transcript(path, heads):
+    text = open(path, encoding="utf-8", errors="replace").read()
+    out = []
+    for h in heads:
+        b = _func_body(text, h)
+        out.append("## " + h)
+        if b is None:
+            out.append("<function not found>"); continue
+        seen = "ctx.initialize(" not in b
+        for l in b.splitlines():
+            l = re.sub(r"//.*", "", l).strip()
+            if "ctx.initialize(" in l:
+                seen = True
+            if l and (_PAT if seen else _PRE).search(l):
+                out.append(re.sub(r"\s+", " ", l))
+    return out
+
+
+def _check_scripts(res):
+    n = 0
+    for fn, heads, want in (_FRONT, _BACK):
+        got = _transcript(vf.REPO + "/modules/main/" + fn, heads); n += len(got)
+        if got != want:
+            k = 0
+            while k < len(got) and k < len(want) and got[k] == want[k]:
+                k += 1
+            res.viols.append(("frontend-script-stale-" + fn.replace(".cpp", "").replace("_", "-"),
+                              "n=0 prog=- seq=- hooklog=[] :: the apps call order of %s differs from the one the harness script reproduces at extracted line %d: expected %r, found %r"
+                              % (fn, k, want[k] if k < len(want) else "<end>", got[k] if k < len(got) else "<end>"), "scripts"))
+    res.stats["main_call_order_lines_compared"] = n
+
+
 def main(tier, args):
     t0 = time.time()
     # the repo sources under test are built with ASan+UBSan; the harness TU itself (model, oracle, enumeration) is not
@@ -18,17 +85,19 @@ def main(tier, args):
     # inside Module code is still reported
     exe = vf.build("C11/module", [vf.VERIF + "/checks/C11/harness.cpp"],
                    vf.module_sources("main/module.cpp", "util/variables.cpp"), mode="asan",
-                   harness_flags=["-fno-sanitize=all", "-O2"],
+                   harness_flags=["-fno-sanitize=all", "-O2", "-faccess-control"],   # public API + Probe's own fields only
                    plain_srcs=[vf.VERIF + "/engine/sched/log_stub.cpp"])
     # nmax nodes, depth of root-call sequences, cross-check (plain enumeration of all sequences) up to xn nodes / xd calls,
     # caps of the history counters in the state key, max number of non-ok modules in trees with exactly nmax nodes (0 = no limit)
-    nmax, depth, xn, xd, capf, capc, maxdev, dl, parts = (4, 12, 3, 3, 2, 1, 0, 240, 16) if tier == "quick" else (5, 12, 3, 5, 3, 2, 3, 600, 64)
+    # caps of the history counters in the state key (failed passes, cleanup passes, stop passes)
+    nmax, depth, xn, xd, capf, capc, caps, maxdev, dl, parts = (4, 14, 3, 3, 2, 1, 1, 0, 300, 16) if tier == "quick" else (5, 14, 3, 5, 3, 2, 2, 3, 900, 64)
     res = vf.Result()
     log = open(vf.BUILD + "/C11/log.txt", "w")
-    cmds = [("part%02d" % k, [exe, "bfs", str(nmax), str(depth), str(k), str(parts), str(xn), str(xd), str(capf), str(capc), str(maxdev)]) for k in range(parts)]
+    cmds = [("part%02d" % k, [exe, "bfs", str(nmax), str(depth), str(k), str(parts), str(xn), str(xd), str(capf), str(capc), str(maxdev), str(caps)]) for k in range(parts)]
     if args.only:
         cmds = [c for c in cmds if c[0] == args.only]
     vf.run_procs(res, cmds, env={"VERIF_DEADLINE_S": str(dl)}, log=log)
+    _check_scripts(res)
     # smallest reproducer of every signature first (replay files and the printed "first:" case)
     res.viols.sort(key=_key)
     keep, cnt = [], {}
@@ -40,25 +109,31 @@ def main(tier, args):
     vf.finish(PID, tier, res, t0,
               rule="every ordered module tree with <=%d nodes x required/optional per child x named/unnamed per node x hook-result mode per node "
                    "{ok, init hook fails always, start hook fails always, init hook fails on its first call only, start hook fails on its first call only, "
-                   "own config section missing (named nodes)}%s x attach variant {add(child,required) top-down; addAs(child,name[,false]) from a temporary "
-                   "name with the default-argument overload for required children, sub-trees attached bottom-up; for trees <%d nodes also add(child[,false]) "
-                   "bottom-up and addAs top-down} (modes below a module that can never initialise fixed to ok; programs rejected by the real add() skipped; after every build a re-add of an attached child and a "
+                   "init / start hook fails on its SECOND call only (at most one such module per tree, the others then ok or failing always; in the largest trees with the first attach variant only), "
+                   "own config section missing (named nodes)}%s x attach variant {add(child,required) top-down; addAs(child,name[,false]) of probes constructed under the final name of "
+                   "the previous sibling (first children share one temporary name), with the default-argument overload for required children, sub-trees attached bottom-up; for trees <%d nodes also add(child[,false]) "
+                   "bottom-up, addAs top-down, and the last child of every module added from that module's first onInit()} (modes below a module that can never initialise fixed to ok; "
+                   "whether add()/addAs() accepts a child is predicted from the tree - refused iff an earlier sibling has the same final name - and the real answer must agree, "
+                   "correctly refused programs are skipped; after every build a re-add of an attached child and a "
                    "second module with a sibling's name must be refused, after every root call that leaves the root initialised an add() on it must be refused); "
                    "per program BFS over all root call sequences over {initialize,start,stop,cleanup} of length<=%d with canonical-state "
-                   "dedup (state_ of every node + per-node hook automaton + reference-model state + first-call counters + counters of failed initialize passes "
-                   "(cap %d), failed start passes (cap %d), completed cleanup passes (cap %d), so a rolled-back failure and a finished life cycle are states of their own), "
+                   "dedup (state() of every node + per-node hook automaton + reference-model state + first-call counters + counters of failed initialize passes "
+                   "(cap %d), failed start passes (cap %d), completed cleanup passes (cap %d), stop passes (cap %d), so a rolled-back failure and a finished life cycle are states of their own), "
                    "every history finished by cleanup()+delete and (unless every module is back in its initial state and the first run matched the reference) by delete only, "
-                   "plus the run_in_frontend/run_in_backend call order; dedup cross-checked by plain enumeration of all sequences of length<=%d for trees <=%d nodes; "
+                   "plus the run_in_frontend/run_in_backend call order run with the config the REAL fillDefaultConfig() writes (the extracted apps call order of "
+                   "Main()/RunInFrontend()/Start()/Stop()/End() must equal the transcript the script was written from); dedup cross-checked by plain enumeration of all sequences of length<=%d for trees <=%d nodes; "
                    "oracle on the probe hook log: exact equality of hook log and initialize()/start() return values with a recursive reference model of the statement "
                    "(per-module state, required/optional, reverse-order roll-back inside the failing call), pre-order init/start per root call, stop/cleanup LIFO w.r.t. "
                    "the start/init hooks they undo (exact reverse), per-module hook automaton, no cleanup hook under a started ancestor, balance after cleanup+destroy "
                    "and after the frontend script (also on its initialize-failed path without cleanup()), balance of all non-root modules after destroy without cleanup, "
                    "optional failing subtree leaves outside hooks identical to the reference of the program without it; ASan/UBSan on the Module code"
-                   % (nmax, (" (at most %d non-ok modules in trees with exactly %d nodes)" % (maxdev, nmax)) if maxdev else "", nmax, depth, capf, capf, capc, xd, xn),
+                   % (nmax, (" (at most %d non-ok modules in trees with exactly %d nodes)" % (maxdev, nmax)) if maxdev else "", nmax, depth, capf, capf, capc, caps, xd, xn),
               assumptions=["a hook's result depends only on the module's mode and on whether it is that hook's first call on the module "
-                           "(fails always / fails the first time only); modes that fail on a later call only are not explored",
-                           "the config is written by the harness from the tree (one nested section per named module, as fillDefaultConfig() produces it), "
-                           "a missing section is modelled per node",
+                           "(fails always / on the first call only / on the second call only); second-call-only modes are not combined with first-call-only modes or with each other",
+                           "BFS histories use a config written by the harness from the tree (one nested section per named module); the frontend script uses the one "
+                           "written by the real fillDefaultConfig() (counter real_fillDefaultConfig_equal_... shows they coincide); a missing section is modelled per node",
+                           "run_in_frontend.cpp / run_in_backend.cpp are not executed: their apps call order is compared textually with the transcript the script reproduces",
+                           "a child added from onInit gets its config section from the harness-written config (it does not exist when fillDefaultConfig() runs)",
                            "balance of the ROOT module is not judged when the tree is destroyed while initialised/running without cleanup() "
                            "(~Module cannot dispatch the hooks of the object being destroyed, DESIGN 1.7); its descendants are judged",
                            "the reference model performs the roll-back of a failed required child inside the failing initialize()/start() call, "
